@@ -41,9 +41,14 @@ def _match(a, b, k):
         raise NotImplementedError
 
 
+# RFC 4790, section 9.2: only the ASCII letters a-z are folded; all other
+# characters (including non-ASCII ones) compare as they are.
+_ASCII_CASEMAP = {c: c - 32 for c in range(ord("a"), ord("z") + 1)}
+
+
 collations: dict[str, Callable[[str, str, str], bool]] = {
     "i;ascii-casemap": lambda a, b, k: _match(
-        a.encode("ascii").upper(), b.encode("ascii").upper(), k
+        a.translate(_ASCII_CASEMAP), b.translate(_ASCII_CASEMAP), k
     ),
     "i;octet": lambda a, b, k: _match(a, b, k),
     # TODO(jelmer): Follow all rules as specified in
